@@ -538,7 +538,9 @@ def _maybe_iterate_axes(
     axes = pipeline.mapspec_axes
     shapes = map_shapes(pipeline, inputs, internal_shapes).shapes
     n_combinations = 0
-    for _fixed_indices in _iterate_axes(independent_axes, inputs, axes, shapes):
+    # A mapped array might be provided as a default value of a function only
+    all_inputs = pipeline.defaults | inputs
+    for _fixed_indices in _iterate_axes(independent_axes, all_inputs, axes, shapes):
         _validate_fixed_indices(_fixed_indices, inputs, pipeline)
         n_combinations += 1
         yield _fixed_indices
